@@ -16,7 +16,7 @@ var Statics = []string{"a", "b", "ab", "abc", "a.b", "x", "foo", "foobar", "$b",
 // Values is the pool wildcard values are drawn from; it overlaps Statics so that
 // static, parameter and catch-all alternatives compete for the same requests.
 // No value starts with '*' or '{' (open finding E, see known_findings.json) or '/'.
-var Values = []string{"a", "b", "ab", "abc", "x", "foo", "zz", "a.b", "foobar", "b:c", "a*", "a{b}"}
+var Values = []string{"a", "b", "ab", "abc", "x", "foo", "zz", "a.b", "foobar", "b:c", "a*", "a{b}", "Ab", "a-b"}
 
 var prefixes = []string{"a", "b", "ab", ":"}
 
@@ -62,7 +62,9 @@ func Path(t *rapid.T, maxSegs int) string {
 }
 
 // HostLabels is the static host label pool.
-var HostLabels = []string{"a", "b", "ab", "com", "example"}
+// "a-b" and "ab-a" continue "a" and "ab" with a hyphen, which sorts before '.' and '/': one registered hostname can be
+// another one plus "-..." as well as plus ".label". "Ab" has an upper-case letter (labels are matched byte for byte).
+var HostLabels = []string{"a", "b", "ab", "com", "example", "a-b", "ab-a", "Ab"}
 
 // Host draws a hostname pattern ("" = path-only with probability pNone/ (pNone+1)).
 func Host(t *rapid.T, noneWeight int) string {
@@ -242,6 +244,11 @@ func MutateHost(t *rapid.T, host string) string {
 	case 12:
 		if len(host) > 1 {
 			return host[:len(host)-1]
+		}
+	case 13:
+		// exactly one trailing dot is dropped, once: a second one stays and makes the last label empty
+		if host != "" {
+			return host + Pick(t, []string{"..", "..:8080"}, "dots")
 		}
 	}
 	return host
